@@ -110,6 +110,9 @@ func runC12(p *Prog, r *Report) {
 	requirementsPairedByKey(p, r, "D12-requirement-identity")
 	r.Rule("D13-first-declaration", "pom.xml writer edits the declaration the resolver reads: the first one with a version")
 	firstMatchWins(p, r, "D13-first-declaration", p.Func("guidedremediation/internal/manifest/maven", "OriginalDependency"), 1, "OriginalDependency no longer answers with the first declaration of the dependency that carries a version: for a dependency declared twice (in <dependencies> and in <dependencyManagement>, in the project and in a profile) the writer edits a later declaration while Maven — and the next analysis of the written file — reads the first, so a patch reported as fixing a vulnerability leaves the vulnerable version in place")
+	// shared with C13 (D12-property-conflicts): an overwritten property writes a requirement at a version no analysis looked at
+	r.Rule("D14-property-conflicts", "pom.xml: the 'property already set?' test reads the cell the value is stored in")
+	guardedInsertSameCell(p, r, "D14-property-conflicts", p.Func("guidedremediation/internal/manifest/maven", "buildPatches"), 1, "the test 'was this property already given a value?' reads another origin's table than the one the value is stored in: a second update sharing the property silently replaces the value of the first, so a dependency is written at a version the reported analysis never resolved — re-analysing the written pom.xml no longer gives 'original minus fixed plus introduced'")
 }
 
 const (
